@@ -6,7 +6,10 @@
 #include <cvs_echo.h>
 #define IS_TRIVIALLY_COPYABLE(T) true
 
-extern "C" { extern size_t e_dl, e_rp, e_bufsz, e_add, e_max, e_tcap; extern int e_st, e_ext; extern unsigned char e_buf[8]; }
+extern "C" { extern size_t e_dl, e_rp, e_bufsz, e_add, e_max, e_tcap, e_vlen, e_isz; extern int e_st, e_ext; extern unsigned char e_buf[32], e_v[32]; }
+#define E1(dst, src, n, k) if ((size_t)(k) < (n)) dst[k] = ((unsigned char const *)(src))[k];
+#define E8(dst, src, n, k) E1(dst, src, n, k) E1(dst, src, n, k+1) E1(dst, src, n, k+2) E1(dst, src, n, k+3) E1(dst, src, n, k+4) E1(dst, src, n, k+5) E1(dst, src, n, k+6) E1(dst, src, n, k+7)
+#define E32(dst, src, n) do { E8(dst, src, n, 0) E8(dst, src, n, 8) E8(dst, src, n, 16) E8(dst, src, n, 24) } while (0)
 
 struct MSF {
   std::vector<unsigned char> *external_output_buffer_ = nullptr;   //@real colvars_memstream.h
@@ -85,7 +88,7 @@ static void ms_load(MSF &f, size_t *st, unsigned char *buf, size_t bufsz, size_t
   if (ext) { f.external_input_buffer_ = buf; }
   else { f.internal_buffer_.p_ = buf; f.internal_buffer_.n_ = st[3]; f.internal_buffer_.cap_ = bufsz; }
   e_dl = st[0]; e_rp = st[1]; e_st = (int) st[2]; e_bufsz = bufsz; e_max = maxlen; e_ext = ext;
-  for (int k = 0; k < 8; k++) { if ((size_t) k < bufsz) e_buf[k] = buf[k]; }
+  E32(e_buf, buf, bufsz);
 }
 static void ms_store(MSF &f, size_t *st) {
   st[0] = f.data_length_; st[1] = f.read_pos_; st[2] = (size_t) f.state_; st[3] = f.internal_buffer_.n_;
@@ -100,18 +103,18 @@ extern "C" int k_expand(size_t *st, unsigned char *buf, size_t bufsz, size_t max
 
 #define MS_INST(SUF, T) \
 extern "C" void k_write_object_##SUF(size_t *st, unsigned char *buf, size_t bufsz, size_t maxlen, T const *t) { \
-  MSCT<T> f; f.raw_ = buf; f.rawsz_ = bufsz; ms_load(f, st, buf, bufsz, maxlen, 0); \
+  MSCT<T> f; f.raw_ = buf; f.rawsz_ = bufsz; ms_load(f, st, buf, bufsz, maxlen, 0); e_isz = sizeof(T); e_vlen = 1; E32(e_v, t, sizeof(T)); \
   f.write_object(*t); ms_store(f, st); } \
 extern "C" void k_read_object_##SUF(size_t *st, unsigned char *buf, size_t bufsz, int ext, T *t) { \
-  MSCT<T> f; f.raw_ = buf; f.rawsz_ = bufsz; ms_load(f, st, buf, bufsz, bufsz, ext); \
+  MSCT<T> f; f.raw_ = buf; f.rawsz_ = bufsz; ms_load(f, st, buf, bufsz, bufsz, ext); e_isz = sizeof(T); \
   f.read_object(*t); ms_store(f, st); } \
 extern "C" void k_write_vector_##SUF(size_t *st, unsigned char *buf, size_t bufsz, size_t maxlen, T *v, size_t vlen) { \
   MSCT<T> f; f.raw_ = buf; f.rawsz_ = bufsz; ms_load(f, st, buf, bufsz, maxlen, 0); \
-  std::vector<T> t; CVS_VIEW(t, v, vlen); \
+  std::vector<T> t; CVS_VIEW(t, v, vlen); e_isz = sizeof(T); e_vlen = vlen; E32(e_v, v, vlen * sizeof(T)); \
   f.write_vector(t); ms_store(f, st); } \
 extern "C" T *k_read_vector_##SUF(size_t *st, unsigned char *buf, size_t bufsz, int ext, T *v, size_t *vlen, size_t vcap) { \
   MSCT<T> f; f.raw_ = buf; f.rawsz_ = bufsz; ms_load(f, st, buf, bufsz, bufsz, ext); \
-  std::vector<T> t; t.p_ = v; t.n_ = *vlen; t.cap_ = vcap; e_tcap = vcap; \
+  std::vector<T> t; t.p_ = v; t.n_ = *vlen; t.cap_ = vcap; e_tcap = vcap; e_isz = sizeof(T); e_vlen = *vlen; \
   g_vec_alloc = 1; \
   f.read_vector(t); ms_store(f, st); *vlen = t.n_; return t.p_; }
 
